@@ -954,6 +954,16 @@ def int_of_the_value_itself(ctx):
                       'silently change their value (2**63 - 1 becomes 2**63, which is even outside the declared range)', f)
     if not n:
         ctx.undecided(f'{f.qualname}:int() of the value itself', f.node, 'no int() conversion found', f)
+    # canonical form: what is returned IS the result of that conversion on every path (a whole-number float 3.0, or True, handed
+    # through unconverted exports as 3.0 / true instead of 3)
+    cfg = ma.cfg
+    rd = ReachingDefs(cfg, f.node)
+    for r in [x for x in body_walk(f.node) if isinstance(x, ast.Return) and x.value is not None and not _in_lazy_branch(x)]:
+        oo = rd.origins_at(r, r.value)
+        ok = bool(oo) and all(isinstance(o, ast.Call) and dotted(o.func) == 'int' for o in oo)
+        ctx.check(ok, f'{f.qualname}:returns the converted integer', r, 'every value reaching the return is an int(...) result',
+                  f'`{src(r)}` can hand the offered value through unconverted ({[src(o) for o in oo if not (isinstance(o, ast.Call) and dotted(o.func) == "int")]}): a whole-number '
+                  'float or a bool is returned as it came in - the validated value is not in canonical form (exported as 3.0 / true instead of 3)', f)
 
 
 @rule('C01.R7b', min_instances=1)
